@@ -46,6 +46,9 @@ BCS = "skchange.change_scores.base.BaseChangeScore"
 
 
 def check(ctx):
+    from .c10 import shared_no_stale
+
+    shared_no_stale(ctx, "C08.d WIRING", [("skchange.change_detectors", "MovingWindow")])
     cls = ctx.P.public_class(*MW)
     ts = ctx.P.lookup_method(cls, "_transform_scores")
     cands = find_driver_call(ctx, ts)
